@@ -48,7 +48,9 @@ def configs(tier):
                 cfgs.append(dict(group='batch', wrapper=wr, shape=shp, n=n, d=2, named=True))
             cfgs.append(dict(group='batch', wrapper=wr, shape='(n,2)', n=n, d=2, named=False))
         for d in range(1, dmax + 1):
-            cfgs.append(dict(group='routing', wrapper=wr, d=d, _cost=24))
+            cfgs.append(dict(group='routing', wrapper=wr, d=d, _cost=24 * d))
+        cfgs.append(dict(group='routing', wrapper=wr, d=2, names='int', _cost=24))
+        cfgs.append(dict(group='routing', wrapper=wr, d=2, names='mixed', _cost=24))
         for named in (True, False):
             cfgs.append(dict(group='typed_rows', wrapper=wr, d=2, named=named))
     cfgs.append(dict(group='river'))
@@ -134,7 +136,11 @@ def _make(env, cfg, names_arg):
     pred = Predictor(env, d if names_arg is None else len(names_arg), cfg.get('shape', '()'), boxed=True)
     saved = mod.__dict__.get('torch', None)
     mod.torch = _fake_torch()
-    return TorchWrapper(pred, feature_names=names_arg), pred, (mod, saved)
+    try:
+        return TorchWrapper(pred, feature_names=names_arg), pred, (mod, saved)
+    except Exception:
+        _restore((mod, saved))
+        raise
 
 
 def _restore(tok):
@@ -211,10 +217,13 @@ def _batch(env, cfg):
 def _routing(env, cfg):
     """with feature names: only those features reach the model, in that order, whatever the key order of the input"""
     d = cfg['d']
-    names = names_for('str', d)
+    names = names_for(cfg.get('names', 'str'), d)
+    # the feature names are supplied in an arbitrary order (not necessarily sorted): that order is the model's column order
+    name_orders = list(itertools.permutations(names))
+    names = list(name_orders[env.choose(len(name_orders), label='order_of_the_supplied_feature_names')])
     extra = 'zz_unexplained'
     cfgw = dict(cfg, shape='(1,)')
-    w, pred, tok = _make(env, cfgw, list(names))
+    w, pred, tok = guarded(env, 'constructor_with_feature_names', _make, env, cfgw, list(names))
     try:
         x = sym_row(env, names, 'x')
         x[extra] = env.real('x_extra')
